@@ -61,6 +61,7 @@ def check_table(uset, rows, res, pairs):
     msgs = []
     n = len(rows)
     letters = [r[2] for r in rows]
+    snap = uset.values.copy()
     if [tuple(i) for i in uset.index] != [(r[0], r[1]) for r in rows]:
         return ["make_uset row order differs from the requested DOF order"]
     # 1. base sets are disjoint and cover
@@ -103,6 +104,8 @@ def check_table(uset, rows, res, pairs):
     if not np.array_equal(n2p.mksetpv(uset, mask["g"], mask["a"]) if all(l in SUP["g"] or l not in SUP["a"] for l in letters) else True,
                           n2p.mksetpv(uset, "g", "a") if all(l in SUP["g"] or l not in SUP["a"] for l in letters) else True):
         msgs.append("integer bitmask form of mksetpv differs from the string form")
+    if not np.array_equal(uset.values, snap):
+        msgs.append("mksetpv modified the USET table")
     return msgs
 
 
